@@ -350,6 +350,18 @@ def run(ctx: Ctx):
         sel = sorted((x for x in recs if x["r"]["t"] == "int" and x["r"]["d"] == dim), key=lambda x: (str(x["r"]["Q"]), x["s"]))
         inter = sel[::7] + sel[3::7]
         groups = [(dim, sel[i:i + 6]) for i in range(0, len(sel), 6)] + [(dim, inter[i:i + 5]) for i in range(0, len(inter), 5)]
+        # third family: only degenerate quadrics, reducible ones (plane / line pairs) next to irreducible ones (cone, cylinder)
+        byq = {}
+        for x in sel:
+            if x["r"]["deg"]:
+                byq.setdefault(str(x["r"]["Q"]), []).append(x)
+        if len(byq) >= 2:
+            lists = list(byq.values())
+            n = min(len(v) for v in lists)
+            mixed_deg = [v[k] for k in range(0, n, max(1, n // 40)) for v in lists]
+            groups += [(dim, mixed_deg[i:i + len(lists)]) for i in range(0, len(mixed_deg), len(lists))]
+        elif dim == 3:
+            raise MachineryError("no two different degenerate quadrics of 3-space to mix in one collection (vacuous)")
         ncoll += len(groups)
         jobs += [("coll", groups[i:i + 40]) for i in range(0, len(groups), 40)]
     if ncoll < 100:
